@@ -419,7 +419,7 @@ Proof.
   - apply Dg_exp_token. - apply Dg_exp_ident. - apply Dg_take_until. - apply Dg_alt; auto.
   - apply Dg_sep_tokens. - apply Dg_sep_list; auto. - apply Dg_until; auto.
   - apply Dg_until_strict; auto. - apply Dg_until_no_match; auto. - apply Dg_binops; auto.
-  - apply Dg_memo; auto. - apply Dg_memo_ok_only; auto.
+  - apply Dg_memo; auto.
   - apply Dg_if_block; auto. - apply Dg_stmt_shape; auto.
 Qed.
 
